@@ -7,8 +7,10 @@ TECH="symbolic execution of go/ssa to SMT-LIB2; z3 verdict (unsat) per path and 
 NOTE="trusted: go/ssa construction, the executor's instruction semantics (sampled path models are replayed natively on every run), z3 5.1.0; stubs and bounds as listed in the evidence file"
 checks={
  "C03":("bounded symbolic model checking of the window kernel (checkEffective, util.OnOrAfter, time.Time methods from stdlib source) against an independent oracle for all instants under P1","DESIGN.md §8 C03"),
+ "C08":("Registry.Filter, lintNamesToMap, sourceListToMap, Empty and the three register functions executed symbolically on registries built through the real registration code; FilterOptions symbolic (arbitrary strings in the name lists, arbitrary source lists, an arbitrary pattern); result compared with the five-clause oracle, plus unchanged source registry (write monitor), kind/pointer identity and inherited configuration","DESIGN.md §8 C08"),
  "C13":("LintSource.FromString/UnmarshalJSON/SourceList.FromString executed symbolically on an unbounded symbolic string; accepted set == declared constants (read from the SSA package)","DESIGN.md §8 C13"),
  "C16":("the RSA key-quality lints run symbolically (through the registry built by the engine-executed init chain) on a certificate with an arbitrary positive modulus (SMT Int) and exponent (64-bit) and compared with arithmetic oracles; trial division by the prime table: table facts + 750 divisor obligations; Fermat: reported factors multiply back (rounds bounded)","DESIGN.md §8 C16"),
+ "C18":("GTLDPeriod.Valid, HasValidTLD and IsInTLDMap executed symbolically for every instant, an arbitrary domain (bounded label count) and an arbitrary well-formed delegation table (bounded entry count, arbitrary date strings with time.Parse uninterpreted, plus a replayable concrete-date variant); table facts and per-entry boundary instants of the real 1574-entry table evaluated concretely by the engine","DESIGN.md §8 C18"),
  "C19":("util.IsIANAReserved/IntersectsIANAReserved with net.IP/net.IPNet methods executed from stdlib source; address bytes and prefix length symbolic (all 2^32 IPv4 addresses, all 2^128 IPv6 addresses for the block laws, every IPv4 prefix length for the network laws)","DESIGN.md §8 C19"),
  "C14":("status<->label tables executed symbolically for an arbitrary 64-bit status and an arbitrary label string; round trip and rejection decided by z3","DESIGN.md §8 C14"),
 }
